@@ -175,7 +175,7 @@ class NoLossOracle(HOracle):
     def at_end(self, sim):
         # bounded progress: the scenario answered everything and stepped the clock; the queue must be empty
         left = sim.scan()
-        if self.h.finished:
+        if self.h.finished and not self.h.stuck:
             if left:
                 self.violate("C03/queue-not-drained", "history finished but the queue still holds %r" % dict(list(left.items())[:4]))
             for m in self.ledger.msgs.values():
